@@ -4,8 +4,8 @@ set -e
 cd "$(dirname "$0")"
 export GOFLAGS=-mod=mod GOPROXY=off
 mkdir -p work evidence replays
-(cd lean && lake build GS GSProofs gsmodel)
+(cd lean && lake build GS GSProofs && for e in $(sed -n "s/^name = \"\(gsm-[a-z0-9-]*\)\"/\1/p" lakefile.toml); do lake build $e; done)
 cp /repo/go.sum harness/go.sum
-(cd harness && go build -tags verif -o bin/gsdrive ./cmd/gsdrive)
+(cd harness && for d in cmd/gs-*; do go build -tags verif -o bin/$(basename $d) ./$d; done)
 if [ -d translate ] && [ -f translate/go.mod ]; then (cd translate && go build ./...); fi
 echo setup-ok
